@@ -43,7 +43,9 @@ BadUpd  == {RR(OUT, "IN", "A", 300, 1), RR(OUT2, "ANY", "ANY", 0, 0), RR(NA, "CH
             RR(NA, "IN", "ANY", 0, 0), RR(NA, "IN", "AXFR", 0, 0), RR(NA, "IN", "MAILB", 0, 0),
             RR(NA, "ANY", "A", 300, 0), RR(NA, "ANY", "A", 0, 1), RR(NA, "ANY", "AXFR", 0, 0),
             RR(NA, "ANY", "MAILA", 0, 0),
-            RR(NA, "NONE", "A", 300, 1), RR(NA, "NONE", "ANY", 0, 0), RR(NA, "NONE", "MAILB", 0, 0)}
+            RR(NA, "NONE", "A", 300, 1), RR(NA, "NONE", "ANY", 0, 0), RR(NA, "NONE", "MAILB", 0, 0),
+            \* two faults in one RR: either code is accepted (the order of the tests is not prescribed)
+            RR(OUT, "CH", "A", 0, 1), RR(OUT, "ANY", "A", 300, 0)}
 GoodUpd == AddRRs \cup DelSets \cup DelRRs
 UpdRRs  == GoodUpd \cup BadUpd
 
@@ -52,7 +54,9 @@ PreRRs  == {RR(o, c, t, 0, 0) : o \in Own \cup {NCA}, c \in {"ANY", "NONE"}, t \
            \cup {RR(o, "IN", t, 0, rd) : o \in Own, t \in {"A", "NS"}, rd \in Rds}
            \cup {RR(NB, "IN", "CNAME", 0, 2), RR(NCA, "IN", "A", 0, 1)}
            \cup {RR(OUT, "ANY", "ANY", 0, 0), RR(OUT2, "NONE", "ANY", 0, 0), RR(NA, "ANY", "A", 300, 0),
-                 RR(NA, "NONE", "A", 0, 1), RR(NA, "ANY", "NS", 0, 1), RR(NA, "CH", "A", 0, 1), RR(NA, "IN", "A", 300, 1)}
+                 RR(NA, "NONE", "A", 0, 1), RR(NA, "ANY", "NS", 0, 1), RR(NA, "CH", "A", 0, 1), RR(NA, "IN", "A", 300, 1),
+                 \* two faults in one RR: either code is accepted
+                 RR(OUT, "ANY", "A", 300, 0), RR(OUT, "CH", "A", 300, 1)}
 
 \* ---- message shapes
 Touch  == RR(NB, "IN", "A", 300, 2)       \* a harmless update to see whether the prerequisites let it through
@@ -66,9 +70,11 @@ Msgs0  == {[pre |-> <<p>>, upd |-> <<>>] : p \in PreRRs} \cup {[pre |-> <<>>, up
 \* first messages that put the zone into an interesting state for the second one: every
 \* well-formed single-RR update
 Setup  == {[pre |-> <<>>, upd |-> <<u>>] : u \in GoodUpd}
+SetupLite == {[pre |-> <<>>, upd |-> <<u>>] : u \in DelRRs \cup DelSets \cup {RR(o, "IN", "CNAME", 300, 1) : o \in Own}}
 \* serial corner: updates around the wrap
 WrapUpd == {RR(NA, "IN", "A", 300, 2), RR(NA, "NONE", "A", 0, 1), RR(NB, "IN", "CNAME", 300, 2),
             SOARR(AP, "IN", 300, <<0, 3>>), SOARR(AP, "IN", 300, <<65535, 65535>>), SOARR(AP, "IN", 300, <<65535, 0>>),
             SOARR(AP, "IN", 300, <<32767, 65530>>), SOARR(AP, "IN", 300, <<32768, 5>>)}
-MsgsWrap == {[pre |-> <<>>, upd |-> <<u>>] : u \in WrapUpd} \cup {[pre |-> <<>>, upd |-> <<u, v>>] : u \in WrapUpd, v \in WrapUpd}
+MsgsWrap1 == {[pre |-> <<>>, upd |-> <<u>>] : u \in WrapUpd}
+MsgsWrap == MsgsWrap1 \cup {[pre |-> <<>>, upd |-> <<u, v>>] : u \in WrapUpd, v \in WrapUpd}
 =============================================================================
